@@ -93,14 +93,14 @@ fn run(t: &Tape, want_desc: bool) -> CaseResult {
 }
 
 pub fn suites() -> Vec<Suite> {
-    vec![Suite {
+    vec![crate::props::funcs::suite_funds_check(), Suite {
         name: "funds",
         about: "provide / execute-swap / cw20-hook calls naming native assets with every declared-vs-attached relation; success => attached == declared and the pair's balance rose by exactly that; failure => whole-state equality",
         head_len: HEAD_LEN,
         op_len: OP_LEN,
         max_ops: 24,
-        quick_cases: 25_000,
-        thorough_cases: 400_000,
+        quick_cases: 50_000,
+        thorough_cases: 600_000,
         run,
         direct: Some(direct_with::<C09Oracle>),
         must_hit: &["e:provide", "e:execute-swap", "e:cw20-hook", "k:two-native", "k:one-native", "f:zero+absent", "f:absent", "f:equal", "f:less", "f:more", "f:extra-coin",
